@@ -2,6 +2,7 @@ package commands
 
 import (
 	"context"
+	"runtime"
 	"strconv"
 	"sync"
 
@@ -10,6 +11,8 @@ import (
 	"github.com/openfga/openfga/internal/graph"
 	"github.com/openfga/openfga/internal/vt"
 	"github.com/openfga/openfga/internal/vtmodels"
+	"github.com/openfga/openfga/internal/vtplan"
+	"github.com/openfga/openfga/internal/vtsem"
 	"github.com/openfga/openfga/pkg/featureflags"
 	"github.com/openfga/openfga/pkg/storage"
 	"github.com/openfga/openfga/pkg/tuple"
@@ -183,4 +186,137 @@ func VerifK05LimitRace() {
 	}
 	vt.Assert(len(resp.Objects) <= want, "listobjects: more objects than min(limit, number of permitted objects)")
 	vt.Assert(len(resp.Objects) == want, "listobjects: fewer objects than min(limit, number of permitted objects) although every candidate is permitted (a counted object was dropped by the cancellation)")
+}
+
+// verifK05TwoHopModel: type user; type group { member: [user] };
+// type document { blocked: [user]; viewer: [group#member, user:*] but not blocked }.
+func verifK05TwoHopModel() *openfgav1.AuthorizationModel {
+	this := func() *openfgav1.Userset { return &openfgav1.Userset{Userset: &openfgav1.Userset_This{}} }
+	ref := func(t string) *openfgav1.RelationReference { return &openfgav1.RelationReference{Type: t} }
+	return &openfgav1.AuthorizationModel{
+		Id:            "01HVMMBCMGZNT3SED4Z17ECXCA",
+		SchemaVersion: "1.1",
+		TypeDefinitions: []*openfgav1.TypeDefinition{
+			{Type: "user", Relations: map[string]*openfgav1.Userset{}},
+			{
+				Type:      "group",
+				Relations: map[string]*openfgav1.Userset{"member": this()},
+				Metadata: &openfgav1.Metadata{Relations: map[string]*openfgav1.RelationMetadata{
+					"member": {DirectlyRelatedUserTypes: []*openfgav1.RelationReference{ref("user")}},
+				}},
+			},
+			{
+				Type: "document",
+				Relations: map[string]*openfgav1.Userset{
+					"blocked": this(),
+					"viewer": {Userset: &openfgav1.Userset_Difference{Difference: &openfgav1.Difference{
+						Base:     this(),
+						Subtract: &openfgav1.Userset{Userset: &openfgav1.Userset_ComputedUserset{ComputedUserset: &openfgav1.ObjectRelation{Relation: "blocked"}}},
+					}}},
+				},
+				Metadata: &openfgav1.Metadata{Relations: map[string]*openfgav1.RelationMetadata{
+					"blocked": {DirectlyRelatedUserTypes: []*openfgav1.RelationReference{ref("user")}},
+					"viewer": {DirectlyRelatedUserTypes: []*openfgav1.RelationReference{
+						{Type: "group", RelationOrWildcard: &openfgav1.RelationReference_Relation{Relation: "member"}},
+						{Type: "user", RelationOrWildcard: &openfgav1.RelationReference_Wildcard{Wildcard: &openfgav1.Wildcard{}}},
+					}},
+				}},
+			},
+		},
+		Conditions: map[string]*openfgav1.Condition{},
+	}
+}
+
+// VerifK05TwoHop: a fully concrete instance (no symbolic input, one path per select choice) of the situation
+// in which the engine's canonical schedule realises hypothesis H7. Store: document:1#viewer@user:*,
+// group:2#member@user:1, document:2#viewer@group:2#member: user:1 may view both documents; document:1 is
+// found in one reverse-expansion step, document:2 in two. Real LocalChecker, result limit 1: the answer must
+// hold exactly one object. The second candidate reaches the consumer after the Check goroutine of the first
+// one has incremented objectsFound and before it has executed the select in TrySendThroughChannel; the
+// consumer cancels (limit reached) and the select - both cases ready - may take ctx.Done: the counted object
+// is dropped and the answer is empty.
+//
+// Native replay: the schedule cannot be forced on the real runtime without hooks, so the native run repeats
+// the request (40 documents, limit 5, GOMAXPROCS 4) "native_iters" times and fails if an answer holds fewer
+// than the limit (observed rate: about 1 in 2000 on the build machine).
+func VerifK05TwoHop() {
+	m := verifK05TwoHopModel()
+	ts, err := typesystem.New(m)
+	vt.Assert(err == nil && ts != nil, "typesystem.New failed")
+	max := vt.ParamInt("max", 1)
+	if k := vt.ParamInt("sched", 0); k > 0 {
+		vt.SchedChoices(k)
+	}
+	if !vt.Symbolic() {
+		_, verr := typesystem.NewAndValidate(context.Background(), m)
+		vt.Assert(verr == nil, "harness: the model is rejected by the model validation")
+		old := runtime.GOMAXPROCS(4)
+		defer runtime.GOMAXPROCS(old)
+		short := 0
+		iters := vt.ParamInt("native_iters", 40000)
+		for it := 0; it < iters && short == 0; it++ {
+			n, lerr := verifK05TwoHopRun(m, ts, 40, 5)
+			vt.Assert(lerr == nil, "listobjects failed")
+			if lerr == nil && n < 5 {
+				short++
+			}
+		}
+		vt.Assert(short == 0, "listobjects: fewer objects than min(limit, number of permitted objects): a counted object was dropped when the limit cancelled the request (native stress run, 40 permitted documents, limit 5)")
+		return
+	}
+	vt.Event("listobjects document#viewer@user:1 max=" + strconv.Itoa(max) + " on document:1#viewer@user:*, group:2#member@user:1, document:2#viewer@group:2#member")
+	n, lerr := verifK05TwoHopRun(m, ts, 2, max)
+	vt.Reach("listed")
+	vt.Assert(lerr == nil, "listobjects failed")
+	if lerr != nil {
+		return
+	}
+	want := 2
+	if max > 0 && want > max {
+		want = max
+	}
+	vt.Assert(n <= want, "listobjects: more objects than min(limit, number of permitted objects)")
+	vt.Assert(n == want, "listobjects: fewer objects than min(limit, number of permitted objects): a counted object was dropped when the limit cancelled the request")
+}
+
+// verifK05TwoHopRun lists document#viewer@user:1 on the store document:1#viewer@user:*, group:i#member@user:1,
+// document:i#viewer@group:i#member (i = 2..docs) - every document is permitted - and returns the size of the answer.
+func verifK05TwoHopRun(m *openfgav1.AuthorizationModel, ts *typesystem.TypeSystem, docs, max int) (int, error) {
+	u := &vtsem.Universe{Model: m, Types: []string{"user", "group", "document"}, Objects: map[string][]string{
+		"user": {"user:1"}, "document": {"document:1"},
+	}}
+	tks := []*openfgav1.TupleKey{tuple.NewTupleKey("document:1", "viewer", "user:*")}
+	for i := 2; i <= docs; i++ {
+		g, d := "group:"+strconv.Itoa(i), "document:"+strconv.Itoa(i)
+		u.Objects["group"] = append(u.Objects["group"], g)
+		u.Objects["document"] = append(u.Objects["document"], d)
+		tks = append(tks, tuple.NewTupleKey(g, "member", "user:1"), tuple.NewTupleKey(d, "viewer", g+"#member"))
+	}
+	st := &vtsem.Store{U: u}
+	for _, tk := range tks {
+		u.Cands = append(u.Cands, vtsem.Cand{Key: tk, Valid: true})
+		st.P, st.Q, st.Met, st.Err = append(st.P, true), append(st.Q, true), append(st.Met, true), append(st.Err, false)
+	}
+	checker := graph.NewLocalChecker(graph.WithPlanner(vtplan.New(vt.ParamInt("plan", 0))))
+	defer checker.Close()
+	q, qerr := NewListObjectsQuery(&vtsem.Reader{S: st}, checker, "01HVMMBCMGZNT3SED4Z17ECXCB",
+		WithListObjectsPipelineEnabled(false),
+		WithFeatureFlagClient(featureflags.NewDefaultClient(nil)),
+		WithListObjectsDeadline(0),
+		WithListObjectsMaxResults(uint32(max)),
+	)
+	if qerr != nil {
+		return 0, qerr
+	}
+	resp, lerr := q.Execute(typesystem.ContextWithTypesystem(context.Background(), ts), &openfgav1.ListObjectsRequest{
+		StoreId:              "01HVMMBCMGZNT3SED4Z17ECXCB",
+		AuthorizationModelId: m.GetId(),
+		Type:                 "document",
+		Relation:             "viewer",
+		User:                 "user:1",
+	})
+	if lerr != nil {
+		return 0, lerr
+	}
+	return len(resp.Objects), nil
 }
